@@ -7,15 +7,26 @@ Two kinds of cases, both on REAL temp directories:
 * ``chain``: the real ``SharesManager.calculate_download_path`` (→ ``chain_strategies`` → the shipped
   strategies) for a strategy list over D(efault) K(eep-directory) N(umber-duplicate) in any order, a
   remote path built from a hostile component alphabet, and a pre-populated download directory.
+  The alphabet holds the components that are dangerous as they are (``..``, ``.``, empty, aliases, drives)
+  AND the ones that only BECOME dangerous when some later step normalises them: dots padded with white
+  space / control / zero-width characters, trailing dots and spaces, Unicode look-alikes of ``.``, ``/``
+  and ``\\`` (NFKC folds them), percent-encoded dots, names around and beyond NAME_MAX (255 bytes, with
+  multi-byte characters straddling the limit), and the directory holds what a shortening / trimming of the
+  name would produce. The verdict is given on the FINAL joined path, resolved by the real file system.
 * ``conc``: 2..3 real ``TransferManager._download_file`` tasks (real ``Transfer`` objects and state
   machine, real aiofiles) on a ``GatedLoop``: every executor call (``aiofiles.os.path.exists``,
   ``makedirs``, ``aiofiles.open``, ``write``, ``close``) is parked until the schedule releases it, so the
-  schedule decides how the start-ups interleave.
+  schedule decides how the start-ups interleave. A start may be hit by an OSError in the claiming step
+  (``os.makedirs`` / the claiming ``open``), a download may be cut off (INCOMPLETE) and any download whose
+  task has ended may be started again through the real state transitions (``queue()``, ``initialize()``).
+  What is judged is the path ACTUALLY used: ``Transfer.local_path`` against a snapshot of the directory
+  taken before the start, the holders of a path while their tasks run, and, at the end, the bytes found in
+  every file in and around the download directory.
 """
 from __future__ import annotations
 
 import asyncio
-import itertools
+import errno
 import logging
 import os
 import random
@@ -28,6 +39,7 @@ from vlib.common import KResult, Violation, Disagreement, Property
 from vlib.simloop import SimLoop, settle
 
 LETTER = {'D': 'DefaultNamingStrategy', 'K': 'KeepDirectoryStrategy', 'N': 'NumberDuplicateStrategy'}
+NAME_MAX = 255          # = Naming.nameMax of the model; checked against the real temp directory at run time
 
 
 # ------------------------------------------------------------------------------------------------
@@ -51,9 +63,22 @@ def _strategies(letters: str):
     return [getattr(naming, LETTER[c])() for c in letters]
 
 
+def _blen(s: str) -> int:
+    return len(s.encode('utf-8', 'surrogatepass'))
+
+
+def _creatable(name: str) -> bool:
+    return name not in ('', '.', '..') and '/' not in name and '\x00' not in name and _blen(name) <= NAME_MAX
+
+
 # ------------------------------------------------------------------------------------------------
 # real directory helpers
 # ------------------------------------------------------------------------------------------------
+
+def _link_target(dl: str, parts, name: str) -> str:
+    """where a (dangling) symbolic link of the pre-populated directory points: OUTSIDE the download dir"""
+    return os.path.join(os.path.dirname(dl), 'linked-' + common.sha([parts, name])[:10])
+
 
 def _populate(dl: str, tree: list):
     os.makedirs(dl, exist_ok=True)
@@ -63,7 +88,11 @@ def _populate(dl: str, tree: list):
         p = os.path.join(d, name)
         if kind == 'd':
             os.makedirs(p, exist_ok=True)
-        elif not os.path.lexists(p):
+        elif os.path.lexists(p):
+            continue
+        elif kind == 'l':
+            os.symlink(_link_target(dl, parts, name), p)
+        else:
             with open(p, 'wb') as f:
                 f.write(b'old')
 
@@ -75,18 +104,19 @@ def _dump_tree(dl: str) -> list[str]:
         parts = [] if rel == '.' else rel.split(os.sep)
         for d in dirs:
             out.append(enc_entry('d', parts, d))
-        for f in files:
+        for f in files:                      # regular files and (dangling) symbolic links
             out.append(enc_entry('f', parts, f))
     return sorted(out)
 
 
 def _tree_lines(tree: list) -> str:
-    """`fs` line for the driver: every directory on the way is an entry too (as on disk)."""
+    """`fs` line for the driver: every directory on the way is an entry too (as on disk); a symbolic
+    link is a non-directory entry."""
     ents = set()
     for kind, parts, name in tree:
         for k in range(len(parts)):
             ents.add(enc_entry('d', parts[:k], parts[k]))
-        ents.add(enc_entry(kind, parts, name))
+        ents.add(enc_entry('d' if kind == 'd' else 'f', parts, name))
     return 'fs ' + ' '.join(sorted(ents))
 
 
@@ -99,17 +129,27 @@ def _split_result(dl: str, path: str):
     return None
 
 
-def _fmt(kind: str, dl: str, d: str, n: str) -> str:
+def _final(dl: str, full: str) -> str:
+    """the joined path string the code will open, as the driver prints it (below the download dir)"""
+    if full.startswith(dl):
+        return enc_name(full[len(dl):])
+    return f'ABS:{full!r}'
+
+
+def _fmt(kind: str, dl: str, d: str, n: str, full: str | None = None) -> str:
     parts = _split_result(dl, d)
     if parts is None:
         return f'{kind} ABS:{d!r} {enc_name(n)}'
-    return f'{kind} {enc_path(parts)} {enc_name(n)}'
+    out = f'{kind} {enc_path(parts)} {enc_name(n)}'
+    if full is not None:
+        out += ' ' + _final(dl, full)
+    return out
 
 
 def _exc_obs(e: BaseException) -> str:
     if isinstance(e, IndexError):
         return 'err noName'
-    if isinstance(e, ValueError):
+    if isinstance(e, ValueError) and 'did not produce a filename' in str(e):
         return 'err emptyName'
     return f'EXC {type(e).__name__}'
 
@@ -130,37 +170,44 @@ def _make_managers(dl: str, letters: str):
 # monitor pieces (the property statement, on what the real code returned / did)
 # ------------------------------------------------------------------------------------------------
 
-def _strictly_inside(dl: str, full: str) -> bool:
-    """Lexical walk from the download directory: never above it, and ends at least one level below."""
-    if not (full == dl or full.startswith(dl + os.sep)):
+def _inside_final(dl: str, full: str) -> bool:
+    """The FINAL path, as the real file system resolves it, is strictly inside the download directory:
+    `normpath` (what the kernel's walk amounts to without symbolic links) and `realpath` of the directory
+    part (with the links that are really there) both end below the download directory."""
+    norm = os.path.normpath(full)
+    if not norm.startswith(dl + os.sep) or norm == dl:
         return False
-    depth = 0
-    for c in full[len(dl):].split(os.sep):
-        if c in ('', '.'):
-            continue
-        if c == '..':
-            depth -= 1
-            if depth < 0:
-                return False
-        else:
-            depth += 1
-    return depth >= 1
+    try:
+        rdl = os.path.realpath(dl)
+        real = os.path.join(os.path.realpath(os.path.dirname(full)), os.path.basename(full))
+        real = os.path.normpath(real)
+    except ValueError:           # embedded NUL: nothing can be created there; the lexical verdict stands
+        return True
+    return real.startswith(rdl + os.sep) and real != rdl
+
+
+def _rel(dl: str, p: str) -> str:
+    try:
+        return os.path.relpath(os.path.normpath(p), dl)
+    except ValueError:
+        return repr(p)
 
 
 def _check_choice(case, dl: str, d: str, n: str, existed: bool, letters: str) -> list[Violation]:
     vs = []
     full = os.path.join(d, n)
-    norm = os.path.normpath(full)
     if n in ('', '.', '..') or os.sep in n:
         vs.append(Violation('C09-irregular-name', f'file name chosen is {n!r}', case,
-                            observed={'dir': os.path.relpath(d, dl), 'name': n},
+                            observed={'dir': _rel(dl, d), 'name': n},
                             required="a regular file name (not '', '.', '..', no separator)"))
-    if not _strictly_inside(dl, full):
-        vs.append(Violation('C09-escape', f'chosen path {os.path.relpath(norm, dl)!r} is not strictly inside the '
+    if not _inside_final(dl, full):
+        vs.append(Violation('C09-escape', f'chosen path {_rel(dl, full)!r} is not strictly inside the '
                             'download directory', case, observed={'dir': d.replace(dl, '<dl>'), 'name': n},
                             required='strictly inside the download directory'))
     if letters.endswith('N') and existed:
-        vs.append(Violation('C09-not-fresh', 'chain ends in NumberDuplicateStrategy but the chosen path exists',
+        vs.append(Violation('C09-not-fresh', 'chain ends in NumberDuplicateStrategy but the chosen path exists'
+                            + (' (as a dangling symbolic link)' if os.path.islink(full) and not os.path.exists(full)
+                               else ''),
                             case, observed={'dir': d.replace(dl, '<dl>'), 'name': n}, required='path does not exist yet'))
     return vs
 
@@ -180,9 +227,10 @@ def _run_chain(case: dict):
             d, n = sm.calculate_download_path(case['remote'])
         except Exception as e:
             return [_exc_obs(e)], vs
-        existed = os.path.lexists(os.path.join(d, n))
+        full = os.path.join(d, n)
+        existed = os.path.lexists(full)
         vs += _check_choice(case, dl, d, n, existed, case['strategies'])
-        return [_fmt('ok', dl, d, n)], vs
+        return [_fmt('ok', dl, d, n, full)], vs
     finally:
         shutil.rmtree(tmp, ignore_errors=True)
 
@@ -223,10 +271,12 @@ class GatedLoop(SimLoop):
 
 
 class _StubConnection:
-    """Stands in for the file connection: delivers the payload in two chunks through the real handle."""
+    """Stands in for the file connection: delivers the payload in two chunks through the real handle;
+    `cut`: the connection is lost after the first chunk (the library's ConnectionReadError)."""
 
-    def __init__(self, payload: bytes):
+    def __init__(self, payload: bytes, cut: bool = False):
         self.payload = payload
+        self.cut = cut
         self.username = 'peer'
 
     def set_connection_state(self, state):
@@ -237,7 +287,10 @@ class _StubConnection:
 
     async def receive_file(self, handle, filesize, callback=None):
         half = max(1, len(self.payload) // 2)
-        for chunk in (self.payload[:half], self.payload[half:]):
+        for k, chunk in enumerate((self.payload[:half], self.payload[half:])):
+            if k == 1 and self.cut:
+                from aioslsk.exceptions import ConnectionReadError
+                raise ConnectionReadError('connection lost (harness)')
             if chunk:
                 await handle.write(chunk)
                 if callback is not None:
@@ -248,11 +301,83 @@ def _payload(i: int) -> bytes:
     return (f'<{i}>'.encode()) * 3
 
 
+def _whose(data: bytes, n: int):
+    """the downloads of which `data` is a prefix of the payload (every download writes only its own bytes)"""
+    return [i for i in range(n) if _payload(i).startswith(data)]
+
+
+def _outside_state(tmp: str) -> dict:
+    """everything next to the download directory: name → content (files) / None (anything else)"""
+    out = {}
+    for name in sorted(os.listdir(tmp)):
+        if name == 'dl':
+            continue
+        p = os.path.join(tmp, name)
+        try:
+            out[name] = open(p, 'rb').read().decode('latin-1') if os.path.isfile(p) and not os.path.islink(p) else None
+        except OSError:
+            out[name] = None
+    return out
+
+
+def _all_entries(dl: str) -> set:
+    out = set()
+    for root, dirs, files in os.walk(dl):
+        for x in dirs + files:
+            out.add(os.path.join(root, x))
+    return out
+
+
+class _Faults:
+    """An OSError injected into the claiming step of ONE start (the synchronous part of
+    `_prepare_download_path`): `m` = `os.makedirs` raises, `o` = the claiming `open` raises."""
+
+    def __init__(self):
+        self.fired = False
+
+    def arm(self, kind: str):
+        import aioslsk.transfer.manager as tmod
+        self.fired = False
+        self._tmod = tmod
+        self._kind = kind
+        if kind == 'o':
+            def failing_open(*a, **k):
+                self.fired = True
+                raise OSError(errno.EMFILE, 'Too many open files (injected)')
+            self._had = 'open' in tmod.__dict__
+            self._saved = tmod.__dict__.get('open')
+            tmod.open = failing_open
+        elif kind == 'm':
+            self._saved = os.makedirs
+
+            def failing_makedirs(*a, **k):
+                self.fired = True
+                raise OSError(errno.ENOSPC, 'No space left on device (injected)')
+            os.makedirs = failing_makedirs
+
+    def disarm(self):
+        if self._kind == 'o':
+            if self._had:
+                self._tmod.open = self._saved
+            else:
+                del self._tmod.open
+        elif self._kind == 'm':
+            os.makedirs = self._saved
+
+
+def _norm_op(op):
+    """['spawn', i] | ['spawn', i, fault, cut] (fault '-', 'm', 'o') | ['release', i]"""
+    if op[0] == 'spawn':
+        return ('spawn', op[1], op[2] if len(op) > 2 else '-', bool(op[3]) if len(op) > 3 else False)
+    return (op[0], op[1], '-', False)
+
+
 async def _conc_main(loop: GatedLoop, case: dict, dl: str, tmp: str):
     from aioslsk.transfer.manager import TransferManager
     from aioslsk.transfer.model import Transfer, TransferDirection
     from aioslsk.transfer.state import TransferState
     letters = case['strategies']
+    fresh_promised = letters.endswith('N')
     settings, bus, net, sm = _make_managers(dl, letters)
     tm = TransferManager(settings, bus, types.SimpleNamespace(), sm, net)
     vs: list[Violation] = []
@@ -265,66 +390,113 @@ async def _conc_main(loop: GatedLoop, case: dict, dl: str, tmp: str):
         return d, n
 
     sm.calculate_download_path = recording_calc
-    transfers, tasks = {}, {}
-    finished: set = set()
+    transfers, tasks, cut_now = {}, {}, {}
+    reported: set = set()
+    n_dl = len(case['downloads'])
     obs, model_lines = [], [_tree_lines(case['tree'])]
     obs.append('ok')
+    outside0 = _outside_state(tmp)
+    faults = _Faults()
 
-    def active():
+    def running():
         return {i: t for i, t in transfers.items()
                 if i in tasks and not tasks[i].done() and t.local_path is not None}
 
     async def observe():
         await settle()
         for i, task in tasks.items():
-            if task.done() and i not in finished:
-                finished.add(i)
-                model_lines.append(f'finish {i}')
+            if task.done() and (i, id(task)) not in reported:
+                reported.add((i, id(task)))
+                model_lines.append(f"{'cut' if cut_now.get(i) else 'finish'} {i}")
                 obs.append('done')
-        act = []
-        for i, t in active().items():
+        held = []
+        for i, t in transfers.items():
+            if t.local_path is None:
+                continue
             d, n = os.path.split(t.local_path)
             parts = _split_result(dl, d)
-            act.append(f"{i}:{enc_path(parts) if parts is not None else 'ABS'}:{enc_name(n)}")
-        obs.append('active ' + ','.join(sorted(act)) + ' fs ' + ','.join(_dump_tree(dl)))
+            st = 'r' if not tasks[i].done() else ('c' if t.state.VALUE == TransferState.COMPLETE else 'b')
+            held.append(f"{i}:{enc_path(parts) if parts is not None else 'ABS'}:{enc_name(n)}:{st}")
+        obs.append('held ' + ','.join(sorted(held)) + ' fs ' + ','.join(_dump_tree(dl)))
         model_lines.append('dump')
         # monitor: two downloads active at the same time never hold the same local path
-        if letters.endswith('N'):
+        if fresh_promised:
             seen = {}
-            for i, t in active().items():
+            for i, t in running().items():
                 key = os.path.normpath(t.local_path)
                 if key in seen:
                     vs.append(Violation('C09-same-path-concurrent',
                                         f'downloads {seen[key]} and {i} are active with the same local path '
-                                        f'{os.path.relpath(key, dl)!r}', case,
-                                        observed={str(j): os.path.relpath(x.local_path, dl) for j, x in active().items()},
+                                        f'{_rel(dl, key)!r}', case,
+                                        observed={str(j): _rel(dl, x.local_path) for j, x in running().items()},
                                         required='distinct local paths'))
                 seen[key] = i
 
-    for op in case['schedule']:
-        if op[0] == 'spawn':
-            i = op[1]
-            tr = Transfer('user%d' % i, case['downloads'][i], TransferDirection.DOWNLOAD)
+    async def start(i: int, fault: str, cut: bool):
+        remote = case['downloads'][i]
+        if i in tasks and not tasks[i].done():
+            model_lines.append(f"start {i} {letters or '-'} {enc_name(remote)} -")
+            obs.append('busy')
+            return
+        if i not in transfers:
+            tr = Transfer('user%d' % i, remote, TransferDirection.DOWNLOAD)
             tr.state = TransferState.init_from_state(TransferState.INITIALIZING, tr)
             tr.filesize = len(_payload(i))
             await tm.add(tr)
             transfers[i] = tr
-            n_before = len(choices)
-            tasks[i] = loop.create_task(tm._download_file(tr, _StubConnection(_payload(i))), name=f'dl-{i}')
+        else:                           # started again: the library's own transitions decide what is kept
+            tr = transfers[i]
+            await tr.state.queue()
+            await tr.state.initialize()
+            if tr.filesize is None:
+                tr.filesize = len(_payload(i))
+        held_before = tr.local_path
+        before = _all_entries(dl) if fresh_promised else set()
+        n_before = len(choices)
+        cut_now[i] = cut
+        conn = _StubConnection(_payload(i)[tr.bytes_transfered:], cut)
+        if fault != '-':
+            faults.arm(fault)
+        try:
+            tasks[i] = loop.create_task(tm._download_file(tr, conn), name=f'dl-{i}')
             await settle()
-            model_lines.append(f"start {i} {letters or '-'} {enc_name(case['downloads'][i])}")
-            task = tasks[i]
-            if tr.local_path is None:
-                exc = task.exception() if task.done() else None
-                obs.append(_exc_obs(exc) if exc is not None else 'EXC no-path-no-exception')
-            else:
-                d, n = os.path.split(tr.local_path)
-                failed = task.done() and tr.state.VALUE == TransferState.FAILED
-                obs.append(_fmt('oserror' if failed else 'chosen', dl, d, n))
-                for (cd, cn, existed) in choices[n_before:]:
-                    vs.extend(_check_choice(case, dl, cd, cn, existed, letters))
-        elif op[0] == 'release':
-            loop.release(f'dl-{op[1]}')
+        finally:
+            if fault != '-':
+                faults.disarm()
+        fired = fault if (fault != '-' and faults.fired) else '-'
+        model_lines.append(f"start {i} {letters or '-'} {enc_name(remote)} {fired}")
+        task = tasks[i]
+        exc = task.exception() if task.done() and not task.cancelled() else None
+        new = choices[n_before:]
+        if exc is not None:
+            obs.append(_exc_obs(exc))
+        elif new and (tr.local_path is None or (task.done() and tr.state.VALUE == TransferState.FAILED)):
+            obs.append(_fmt('oserror', dl, new[-1][0], new[-1][1]))
+        elif tr.local_path is not None:
+            d, n = os.path.split(tr.local_path)
+            obs.append(_fmt('chosen' if new else 'resumed', dl, d, n, tr.local_path))
+        else:
+            obs.append('EXC no-path-no-exception')
+        for (cd, cn, existed) in new:
+            vs.extend(_check_choice(case, dl, cd, cn, existed, letters))
+        # the path actually stored for this start
+        if new and tr.local_path is not None and tr.local_path != held_before:
+            lp = tr.local_path
+            if not _inside_final(dl, lp):
+                vs.append(Violation('C09-escape', f'local path {_rel(dl, lp)!r} given to download {i} is not strictly '
+                                    'inside the download directory', case, observed=lp.replace(dl, '<dl>'),
+                                    required='strictly inside the download directory'))
+            if fresh_promised and os.path.normpath(lp) in before:
+                vs.append(Violation('C09-not-fresh', f'local path {_rel(dl, lp)!r} given to download {i} existed '
+                                    'before the download started (it is not the path that was checked)', case,
+                                    observed=lp.replace(dl, '<dl>'), required='path does not exist yet'))
+
+    for raw in case['schedule']:
+        kind, i, fault, cut = _norm_op(raw)
+        if kind == 'spawn':
+            await start(i, fault, cut)
+        elif kind == 'release':
+            loop.release(f'dl-{i}')
         await observe()
     # drain: let every download finish, round-robin
     for _ in range(200):
@@ -336,12 +508,15 @@ async def _conc_main(loop: GatedLoop, case: dict, dl: str, tmp: str):
     for i, task in tasks.items():
         if task.done() and not task.cancelled():
             task.exception()       # retrieved
-    # monitor: nothing was created outside the download directory, nothing was clobbered
-    outside = sorted(os.listdir(tmp))
-    if outside != ['dl']:
-        vs.append(Violation('C09-escape', f'files created outside the download directory: {outside}', case,
-                            observed=outside, required=['dl']))
-    if letters.endswith('N'):
+    # monitor: nothing was created or changed outside the download directory
+    outside1 = _outside_state(tmp)
+    if outside1 != outside0:
+        changed = sorted(k for k in set(outside0) | set(outside1) if outside0.get(k, '∅') != outside1.get(k, '∅'))
+        vs.append(Violation('C09-escape', f'files created or changed outside the download directory: {changed}', case,
+                            observed={k: outside1.get(k, '<gone>') for k in changed},
+                            required={k: outside0.get(k, '<absent>') for k in changed}))
+    # monitor: nothing was clobbered — judged by the bytes that really ended up in the files
+    if fresh_promised:
         for i, tr in transfers.items():
             if tr.local_path and tasks[i].done() and tr.state.VALUE == TransferState.COMPLETE:
                 try:
@@ -351,15 +526,28 @@ async def _conc_main(loop: GatedLoop, case: dict, dl: str, tmp: str):
                 if data != _payload(i):
                     vs.append(Violation('C09-clobbered', f'download {i} completed but its file holds {data!r}', case,
                                         observed=repr(data), required=repr(_payload(i))))
+        initial = {}
         for kind, parts, name in case['tree']:
+            initial[os.path.join(dl, *parts, name)] = kind
+        for p, kind in initial.items():
             if kind == 'f':
-                p = os.path.join(dl, *parts, name)
                 try:
                     if open(p, 'rb').read() != b'old':
-                        vs.append(Violation('C09-clobbered', f'pre-existing file {os.path.relpath(p, dl)!r} was modified',
+                        vs.append(Violation('C09-clobbered', f'pre-existing file {_rel(dl, p)!r} was modified',
                                             case, required='untouched'))
                 except OSError:
-                    vs.append(Violation('C09-clobbered', f'pre-existing file {os.path.relpath(p, dl)!r} vanished', case))
+                    vs.append(Violation('C09-clobbered', f'pre-existing file {_rel(dl, p)!r} vanished', case))
+            elif kind == 'l' and not (os.path.islink(p) and not os.path.exists(p)):
+                vs.append(Violation('C09-clobbered', f'pre-existing dangling link {_rel(dl, p)!r} was written through '
+                                    'or replaced', case, required='untouched'))
+        for p in sorted(_all_entries(dl)):
+            if p in initial or not os.path.isfile(p) or os.path.islink(p):
+                continue
+            data = open(p, 'rb').read()
+            if not _whose(data, n_dl):
+                vs.append(Violation('C09-clobbered', f'file {_rel(dl, p)!r} holds bytes of more than one download '
+                                    f'or of none: {data[:60]!r}', case, observed=repr(data[:200]),
+                                    required='the bytes of one download'))
     return obs, vs, model_lines
 
 
@@ -370,6 +558,9 @@ def _run_conc(case: dict):
     try:
         dl = os.path.join(tmp, 'dl')
         _populate(dl, case['tree'])
+        for name in case.get('outside', []):       # files NEXT TO the download directory
+            with open(os.path.join(tmp, name), 'wb') as f:
+                f.write(b'outside')
         asyncio.set_event_loop(loop)
         obs, vs, lines = loop.run_until_complete(_conc_main(loop, case, dl, tmp))
         return obs, vs, lines
@@ -405,6 +596,76 @@ SEPS = ['\\', '\\', '\\', '/', '\\\\', '//', '\\/', '/\\\\']
 CHAINS = ['DN', 'DN', 'DKN', 'DKN', 'KDN', 'DNK', 'NDK', 'NKD', 'KND', 'D', 'DK', 'KD', 'K', 'N', '', 'DKKN', 'DNN',
           'NDN', 'DD', 'KN', 'NK', 'DNKN']
 
+# --- components that BECOME '.', '..', '' or a separator when something normalises them -------------
+# what a strip / trim / "remove junk characters" step takes away
+PADS = [' ', '  ', '\t', '\n', '\r', '\r\n', '\x0b', '\x0c', '\x1c', '\x1f', '\x7f', '\x85', '\xa0', '\xad',
+        ' ', ' ', ' ', ' ', ' ', '​', '‎', '‮', '⁠', '　', '﻿',
+        '.', '. ', ' .', '"', "'"]
+# what a Unicode (NFKC / confusables) / percent / entity decoding turns into dots and separators
+LOOKALIKES = ['‥', '．．', '․․', '․', '．', '…', '.．', '。。',
+              '｡｡', '··', '܁܁', '%2e%2e', '%2E%2E', '%2e', '.%2e', '%252e%252e',
+              '&#46;&#46;', '\\x2e\\x2e', '..%2f', '..%5c', '%2f..', '..%00', '..;', '..:', '..|', '..?', '..*', '..<',
+              '..>']
+N_UNICODE_LOOKALIKES = 11
+SEP_LIKE = ['／', '＼', '∕', '⁄', '⧸', '⧵', '∖', '%2f', '%5c', ':']
+TRAILING = ['dir.', 'dir ', 'dir. .', 'dir..', ' dir', 'dir\t', 'x. ', 'x .', 'CON', 'nul', 'aux.txt', 'COM1', 'x::$DATA',
+            'x́', 'é', 'é', 'X', 'DIR', 'Dir']
+LONG_DIRS = ['D' * 255, 'D' * 256, 'é' * 127, 'é' * 128, '日' * 85, '日' * 86, 'M' * 1000, '. ' + 'P' * 254, 'Q' * 254 + '.']
+
+
+def _normalisable(rng: random.Random, nul_ok: bool) -> str:
+    """a component that is harmless as it stands and dangerous after some normalisation"""
+    r = rng.random()
+    if r < 0.45:
+        base = rng.choice(['..', '..', '..', '.', ''])
+        pads = PADS + (['\x00'] if nul_ok else [])
+        left = rng.choice(pads) if rng.random() < 0.45 else ''
+        right = rng.choice(pads) if (rng.random() < 0.7 or not left) else ''
+        if base == '..' and rng.random() < 0.2:          # junk between the dots
+            return left + '.' + rng.choice(pads) + '.' + right
+        return left + base + right
+    if r < 0.65:
+        return rng.choice(LOOKALIKES)
+    if r < 0.78:
+        sep = rng.choice(SEP_LIKE)
+        return rng.choice(['a' + sep + '..' + sep + 'b', '..' + sep + 'x', 'x' + sep + '..', sep + 'etc', '..' + sep,
+                           sep + '..', '.' + sep + '.'])
+    if r < 0.9:
+        return rng.choice(TRAILING)
+    return rng.choice(LONG_DIRS)
+
+
+def _long_name(rng: random.Random) -> str:
+    """a file name around or beyond NAME_MAX bytes; multi-byte characters may straddle the limit"""
+    unit = rng.choice(['W', 'W', 'é', '日', '🎵', 'ab ', 'x.', 'Ω '])
+    ext = rng.choice(['.mp3', '.mp3', '.flac', '', '.é', '.' + 'e' * 20])
+    total = rng.choice([240, 249, 250, 251, 252, 253, 254, 255, 255, 256, 257, 259, 260, 300, 300, 511, 1000])
+    room = max(total - _blen(ext), 1)
+    stem = unit * (room // _blen(unit))
+    stem += 'z' * (room - _blen(stem))
+    return (stem + ext).strip() or 'z' * total
+
+
+def _shortenings(name: str) -> list[str]:
+    """what cutting / trimming `name` to the limits of a file system would make of it"""
+    out = []
+    stem, ext = os.path.splitext(name)
+    for limit in (NAME_MAX, NAME_MAX - 1, 250, 240, 200, 128, 64):
+        if _blen(name) <= limit:
+            continue
+        whole = name.encode()[:limit].decode('utf-8', 'ignore')
+        keep = stem.encode()[:max(limit - _blen(ext), 0)].decode('utf-8', 'ignore') + ext
+        out += [whole, keep, name[:limit], stem[:max(limit - len(ext), 0)] + ext, whole.rstrip(' .'), keep.rstrip(' .')]
+    for t in (name.strip(), name.rstrip(' .'), name.strip(''.join(p for p in PADS if len(p) == 1))):
+        if t != name:
+            out.append(t)
+    seen, res = set(), []
+    for o in out:
+        if o not in seen and _creatable(o):
+            seen.add(o)
+            res.append(o)
+    return res
+
 
 def _variants(rng: random.Random, fname: str) -> list[str]:
     stem, ext = os.path.splitext(fname)
@@ -415,16 +676,27 @@ def _variants(rng: random.Random, fname: str) -> list[str]:
     extra = [f'{stem} (01){ext}', f'{stem} (2){ext}.bak', f'{stem} (){ext}', f'{stem} (x){ext}', f'{stem}(3){ext}',
              f'{stem} (3) copy{ext}', f'{stem} (6', f'{stem.upper()} (1){ext}', f'{stem} (1)', f'{stem} (12)']
     out += rng.sample(extra, rng.randint(0, 3))
-    return [o for o in out if o not in ('', '.', '..') and len(o.encode()) < 250 and '/' not in o]
+    short = _shortenings(fname) + [s for k in (1, 2) for s in _shortenings(f'{stem} ({k}){ext}')]
+    if short:
+        out += rng.sample(short, min(len(short), rng.randint(0, 3)))
+    return [o for o in out if _creatable(o)]
 
 
-def _gen_remote(rng: random.Random, fname: str | None = None) -> tuple[str, list[str]]:
+def _gen_remote(rng: random.Random, fname: str | None = None, hostile: float = 0.0,
+                nul_ok: bool = False) -> tuple[str, list[str]]:
+    """`hostile`: probability that the containing directory / the file name is a normalisable component"""
     comps = []
     for _ in range(rng.choice([0, 1, 1, 2, 2, 3, 4])):
-        comps.append(rng.choice(SPECIAL) if rng.random() < 0.55 else rng.choice(PLAIN))
-    comps.append(fname if fname is not None else rng.choice(FILES))
+        r = rng.random()
+        comps.append(rng.choice(SPECIAL) if r < 0.5 else _normalisable(rng, nul_ok) if r < 0.62 else rng.choice(PLAIN))
+    if comps and rng.random() < hostile:
+        comps[-1] = _normalisable(rng, nul_ok)          # the component keep-directory looks at
+    if fname is None:
+        r = rng.random()
+        fname = _long_name(rng) if r < 0.12 else _normalisable(rng, nul_ok) if r < 0.12 + hostile / 2 else rng.choice(FILES)
+    comps.append(fname)
     if rng.random() < 0.2:
-        comps += rng.choice([['..'], ['.'], [''], ['..', '..'], ['.', '']])
+        comps += rng.choice([['..'], ['.'], [''], ['..', '..'], ['.', ''], ['.. '], [' ..', ''], ['\t.']])
     s = ''
     if rng.random() < 0.3:
         s += rng.choice(SEPS)
@@ -437,70 +709,108 @@ def _gen_remote(rng: random.Random, fname: str | None = None) -> tuple[str, list
     return s, comps
 
 
-def _gen_tree(rng: random.Random, remotes: list[list[str]], short: bool) -> list:
+def _gen_tree(rng: random.Random, remotes: list[list[str]], links: bool) -> list:
+    """`links`: dangling symbolic links may occupy names (only offered where the chain promises a fresh path)"""
     tree = []
+
+    def kind():
+        r = rng.random()
+        return 'd' if r < 0.12 else 'l' if (links and r < 0.22) else 'f'
+
     for comps in remotes:
-        usable = [c for c in comps if c not in ('', '.', '..')]
+        usable = [c for c in comps if c not in ('', '.', '..') and '/' not in c and '\\' not in c]
         if not usable:
             continue
         fname = usable[-1]
-        if len(fname.encode()) > 200:
-            continue
         dirs = [[]]
-        if len(usable) > 1 and len(usable[-2].encode()) < 200:
+        if len(usable) > 1 and _creatable(usable[-2]):
             dirs.append([usable[-2]])
-        if rng.random() < 0.15 and len(usable) > 1:
-            dirs.append([usable[-2], usable[-2]])
+            if rng.random() < 0.15:
+                dirs.append([usable[-2], usable[-2]])
+            t = usable[-2].strip()
+            if t != usable[-2] and _creatable(t) and rng.random() < 0.3:
+                dirs.append([t])                          # the directory a trimmed name would land in
         for d in dirs:
             if rng.random() < 0.7:
                 for v in _variants(rng, fname):
-                    tree.append(['d' if rng.random() < 0.12 else 'f', d, v])
+                    tree.append([kind(), d, v])
             if rng.random() < 0.2:
                 for v in _variants(rng, ''):
                     tree.append(['f', d, v])
-        if rng.random() < 0.08 and len(usable) > 1:
-            tree.append(['f', [], usable[-2]])        # a file where keep-directory wants a directory
+        if rng.random() < 0.08 and len(usable) > 1 and _creatable(usable[-2]):
+            tree.append([rng.choice(['f', 'l']) if links else 'f', [], usable[-2]])   # a non-directory where
+            #                                                                  keep-directory wants a directory
     rng.shuffle(tree)
     kinds: dict = {}
-    for kind, d, n in tree:
+    for knd, d, n in tree:
         key = tuple(d) + (n,)
-        if key in kinds or any(kinds.get(key[:k]) == 'f' for k in range(1, len(key))):
+        if key in kinds or any(kinds.get(key[:k]) in ('f', 'l') for k in range(1, len(key))):
             continue
         for k in range(1, len(key)):
             kinds.setdefault(key[:k], 'd')
-        kinds[key] = kind
-    return [[kind, list(key[:-1]), key[-1]] for key, kind in sorted(kinds.items())]
+        kinds[key] = knd
+    return [[knd, list(key[:-1]), key[-1]] for key, knd in sorted(kinds.items())]
 
 
 def _gen_chain_case(rng: random.Random) -> dict:
-    remote, comps = _gen_remote(rng)
-    if rng.random() < 0.04:
-        remote, comps = rng.choice([('', ['']), ('\\', ['']), ('..', ['..']), ('.\\..', ['.', '..'])])
     letters = rng.choice(CHAINS) if rng.random() < 0.8 else ''.join(rng.choice('DKN') for _ in range(rng.randint(1, 4)))
-    return {'kind': 'chain', 'strategies': letters, 'remote': remote, 'tree': _gen_tree(rng, [comps], False)}
+    remote, comps = _gen_remote(rng, hostile=0.35, nul_ok=True)
+    if rng.random() < 0.04:
+        remote, comps = rng.choice([('', ['']), ('\\', ['']), ('..', ['..']), ('.\\..', ['.', '..']),
+                                    ('.. \\x', ['.. ', 'x']), (' ', [' ']), ('\t..\\ ', ['\t..', ' '])])
+    return {'kind': 'chain', 'strategies': letters, 'remote': remote,
+            'tree': _gen_tree(rng, [comps], letters.endswith('N'))}
 
 
 def _gen_conc_case(rng: random.Random) -> dict:
     n = rng.choice([2, 2, 3])
-    fname = rng.choice([f for f in FILES if len(f) < 50 and f not in ('..', '.', '...')])
+    r = rng.random()
+    if r < 0.3:
+        fname = _long_name(rng)
+    elif r < 0.4:
+        fname = _normalisable(rng, False)
+        if fname in ('', '.', '..') or '/' in fname or '\\' in fname:
+            fname = fname + 'x'
+    else:
+        fname = rng.choice([f for f in FILES if len(f) < 50 and f not in ('..', '.', '...')])
     remotes, compss = [], []
     for _ in range(n):
-        r, c = _gen_remote(rng, fname if rng.random() < 0.85 else rng.choice(FILES[:8]))
-        c = [x if len(x) < 100 else 'longdir' for x in c]
-        r = r.replace('L' * 120, 'longdir')
-        remotes.append(r)
+        rm, c = _gen_remote(rng, fname if rng.random() < 0.85 else rng.choice(FILES[:8]), hostile=0.3)
+        remotes.append(rm)
         compss.append(c)
-    letters = rng.choice(['DN', 'DN', 'DKN', 'DKN', 'KDN', 'NDN', 'DKKN', 'DNN', 'D', 'DK', 'DNK'])
+    letters = rng.choice(['DN', 'DN', 'DN', 'DKN', 'DKN', 'KDN', 'NDN', 'DKKN', 'DNN', 'D', 'DK', 'DNK'])
     order = list(range(n))
     rng.shuffle(order)
     sched, spawned = [], []
+    eventful = rng.random() < 0.45          # faults, cut-off downloads, downloads started again
+
+    def spawn(i):
+        if not eventful:
+            return ['spawn', i]
+        fault = rng.choice(['-', '-', '-', 'o', 'o', 'm'])
+        return ['spawn', i, fault, rng.random() < 0.3]
+
     for i in order:
-        sched.append(['spawn', i])
+        sched.append(spawn(i))
         spawned.append(i)
         for _ in range(rng.choice([0, 0, 0, 1, 2, 3, 6])):
             sched.append(['release', rng.choice(spawned)])
+        if eventful and rng.random() < 0.5:
+            j = rng.choice(spawned)
+            for _ in range(rng.choice([0, 12, 12])):        # (mostly) let it end first
+                sched.append(['release', j])
+            sched.append(spawn(j))
+    if eventful:
+        for _ in range(rng.choice([0, 1, 2])):
+            j = rng.choice(spawned)
+            for _ in range(rng.choice([0, 12])):
+                sched.append(['release', j])
+            sched.append(spawn(j))
+    links = letters.endswith('N')
+    outside = sorted({c[-1] for c in compss if _creatable(c[-1])} |
+                     {s for c in compss for s in _shortenings(c[-1])[:2]})
     return {'kind': 'conc', 'strategies': letters, 'downloads': remotes, 'schedule': sched,
-            'tree': _gen_tree(rng, compss, True) if rng.random() < 0.7 else []}
+            'tree': _gen_tree(rng, compss, links) if rng.random() < 0.7 else [], 'outside': outside}
 
 
 # Witnesses of the defects of the unchanged tree (repaired by fixes/C09-*.patch); replayed every run.
@@ -512,6 +822,18 @@ WITNESSES = [
                                   'schedule': [['spawn', 0], ['spawn', 1]], 'tree': []}),
     ('C09-escape', {'kind': 'conc', 'strategies': 'DKN', 'downloads': ['a\\..\\x.mp3'],
                     'schedule': [['spawn', 0]], 'tree': []}),
+    # fixes/C09-dangling-symlink.patch: a dangling symbolic link counted as a free name
+    ('C09-not-fresh', {'kind': 'chain', 'strategies': 'DN', 'remote': 'a\\x.mp3', 'tree': [['l', [], 'x.mp3']]}),
+    ('C09-escape', {'kind': 'conc', 'strategies': 'DN', 'downloads': ['a\\x.mp3'], 'schedule': [['spawn', 0]],
+                    'tree': [['l', [], 'x.mp3']], 'outside': ['x.mp3']}),
+    # fixes/C09-unclaimed-path-kept.patch: the path of a failed claim was kept and used later without a check
+    ('C09-same-path-concurrent', {'kind': 'conc', 'strategies': 'DN', 'downloads': ['a\\x.mp3', 'b\\x.mp3'],
+                                  'schedule': [['spawn', 0, 'o', False], ['spawn', 1], ['spawn', 0]], 'tree': []}),
+    # over-long names: refused by the file system, nothing is claimed, nothing is shared
+    (None, {'kind': 'conc', 'strategies': 'DN', 'downloads': ['a\\' + 'W' * 296 + '.mp3', 'b\\' + 'W' * 296 + '.mp3'],
+            'schedule': [['spawn', 0], ['spawn', 1], ['spawn', 0]], 'tree': [], 'outside': []}),
+    (None, {'kind': 'conc', 'strategies': 'DN', 'downloads': ['a\\' + 'é' * 125 + '.mp3'] * 3,
+            'schedule': [['spawn', 0], ['spawn', 1], ['spawn', 2]], 'tree': [], 'outside': []}),
 ]
 
 
@@ -537,13 +859,25 @@ def _eval_case(case):
         return [f'HARNESS-EXC {type(e).__name__}: {e}'], [], ['dump']
 
 
+def _comps(remote: str) -> list[str]:
+    return remote.replace('/', '\\').split('\\')
+
+
+def _becomes_special(c: str) -> bool:
+    """harmless as it stands, `.`/`..`/empty/over-long matter after a normalisation or for the file system"""
+    if c in ('', '.', '..'):
+        return False
+    junk = ''.join(p for p in PADS if len(p) == 1) + '\x00'
+    return (c.strip(junk) in ('', '.', '..') or c.rstrip(' .') != c or _blen(c) > 200
+            or any(x in c for x in LOOKALIKES[:N_UNICODE_LOOKALIKES] + SEP_LIKE) or '%2' in c.lower())
+
+
 def _nontrivial(case, obs) -> bool:
     if case['kind'] == 'chain':
-        r = case['remote']
-        special = any(c in ('..', '.', '') or c.startswith('@@') or c[1:2] == ':' for c in
-                      r.replace('/', '\\').split('\\'))
+        cs = _comps(case['remote'])
+        special = any(c in ('..', '.', '') or c.startswith('@@') or c[1:2] == ':' or _becomes_special(c) for c in cs)
         return special or '32.40' in obs[-1] or obs[-1].startswith('err')
-    return sum(1 for o in obs if o.startswith('chosen')) >= 2
+    return sum(1 for o in obs if o.startswith(('chosen', 'resumed', 'oserror'))) >= 2
 
 
 class C09(Property):
@@ -552,38 +886,57 @@ class C09(Property):
     driver_module = 'AioslskVerif.Driver.C09'
     rule = ("chain cases: strategy list over {default, keep-directory, number-duplicate} (all orders of all subsets, "
             "repetitions, empty), remote path = components from {'..','.','','@@alias','C:',dot names, long, non-ASCII, "
-            "'x (1).mp3'…} joined by mixed/repeated \\ and / with optional leading/trailing separators, download "
-            "directory pre-populated with the name, numbered variants and near-misses (files and directories, also in the "
-            "kept sub-directory); conc cases: 2..3 real _download_file tasks of (mostly) equally named files, start-ups "
-            "interleaved by a schedule that releases executor calls one at a time. All from VERIF_SEED. Non-trivial: "
-            "chain case with a special component / a numbered result / a raise; conc case in which at least two "
-            "downloads chose a path. Distinct = distinct canonical case")
+            "'x (1).mp3'…} and from the components that only BECOME '.', '..', '' or a separator after a normalisation "
+            "(dots padded with / interleaved by white space, control, zero-width and quote characters, trailing dots and "
+            "spaces, Unicode look-alikes of '.', '/' and '\\', percent / entity encodings, NUL, names of 240..1000 bytes "
+            "with 1..4-byte characters straddling NAME_MAX), preferably in the two positions the strategies look at, "
+            "joined by mixed/repeated \\ and / with optional leading/trailing separators; download directory "
+            "pre-populated with the name, numbered variants, near-misses and what cutting / trimming the name would give "
+            "(files, directories and — where the chain promises a fresh path — dangling symbolic links, also in the kept "
+            "sub-directory). conc cases: 2..3 real _download_file tasks of (mostly) equally named files (30 % over-long "
+            "names), start-ups interleaved by a schedule that releases executor calls one at a time; 45 % of them with "
+            "OSErrors injected into the claiming step, downloads cut off, and downloads started again after their task "
+            "ended; equally named files NEXT TO the download directory. All from VERIF_SEED. Non-trivial: chain case "
+            "with a special or normalisable component / a numbered result / a raise; conc case in which at least two "
+            "starts chose, resumed or failed to claim a path. Distinct = distinct canonical case")
     assumptions = [
         'POSIX path semantics (os.sep == "/"); Windows drive-relative names, reserved device names and case-insensitive '
-        'file systems are not modelled',
-        'the download directory holds regular files and directories only (no symbolic links), and only the library '
-        'creates files in it while downloads are starting',
+        'file systems are not modelled; NAME_MAX = 255 bytes (checked on the temp directory), paths shorter than PATH_MAX',
+        'the download directory is not the root directory and is not reached through a name the peer knows; '
+        'sub-directories of it are real directories (a symbolic link to a directory placed there by the user is followed '
+        'by design); dangling symbolic links in place of FILES are part of the generated directory contents',
+        'only the library creates or removes entries of the download directory while a download holds a path in it (a '
+        'partial file deleted by hand while its download is paused is re-created on resume without a new check)',
         'os.path.exists / os.listdir / os.makedirs / open agree with the model file system (exercised on real temp '
-        'directories, not modelled further); names are shorter than NAME_MAX in the concurrent cases',
+        'directories, not modelled further); names with an embedded NUL only in the chain cases (the library lets the '
+        "ValueError of os.makedirs escape; that is not this property's subject)",
         "re.match's \\d is modelled for ASCII digits only",
         'asyncio runs the code between two suspension points atomically; executor calls are the suspension points the '
-        'schedule controls',
+        'schedule controls; the injected OSErrors hit os.makedirs / the claiming open() of _prepare_download_path',
     ]
     modelled = ('naming.py (split_local_parts, the three strategies incl. splitext / numbering pattern / next free index, '
-                'chain_strategies), utils.split_remote_path, SharesManager.calculate_download_path, the choose-and-claim '
-                'step of TransferManager._prepare_download_path; exercised but not modelled: the rest of _download_file '
-                '(state machine, aiofiles writes), OS file semantics')
+                'chain_strategies), utils.split_remote_path, SharesManager.calculate_download_path, os.path.join of the '
+                'result (final path string), the choose-and-claim step of TransferManager._prepare_download_path incl. '
+                'OSErrors (injected, ENAMETOOLONG, a non-directory in the way), which path a download holds over '
+                'complete / cut-off / started-again; exercised but not modelled: the rest of _download_file (state '
+                'machine, aiofiles writes), OS file semantics')
 
     def correspondence(self, seed, tier, model_ok, widen=1):
         res = KResult()
         rng = random.Random(f'C09-{seed}')
         n_chain = (2600 if tier == 'quick' else 40000) * widen
-        n_conc = (500 if tier == 'quick' else 6000) * widen
+        n_conc = (700 if tier == 'quick' else 8000) * widen
         cases = [c for _s, c in WITNESSES]
         cases += [c for c in _corpus() if c not in cases]
         n_fixed = len(cases)
         cases += [_gen_chain_case(rng) for _ in range(n_chain)]
         cases += [_gen_conc_case(rng) for _ in range(n_conc)]
+        try:
+            name_max = os.pathconf(tempfile.gettempdir(), 'PC_NAME_MAX')
+            if name_max != NAME_MAX:
+                res.notes.append(f'NAME_MAX of the temp directory is {name_max}, the model assumes {NAME_MAX}')
+        except (OSError, ValueError):
+            pass
         results = common.parallel_map(_eval_case, cases, chunksize=16)
         model = None
         if model_ok:
@@ -606,11 +959,27 @@ class C09(Property):
                 res.nontrivial_keys.add(common.sha(c))
             if c['tree']:
                 res.count('tree:non-empty')
-            if any('32.40.' in o.split(' ')[-1] for o in obs if o.startswith(('ok ', 'chosen '))):
+            if any(k == 'l' for k, _d, _n in c['tree']):
+                res.count('tree:dangling-link')
+            remotes = [c['remote']] if c['kind'] == 'chain' else c['downloads']
+            comps = [x for r in remotes for x in _comps(r)]
+            if any(_becomes_special(x) for x in comps):
+                res.count('remote:normalisable-component')
+            if any(x.strip(''.join(p for p in PADS if len(p) == 1) + '\x00') in ('.', '..') and x not in ('.', '..')
+                   for x in comps):
+                res.count('remote:padded-dots')
+            if any(_blen(x) > 240 for x in comps):
+                res.count('remote:name-around-or-beyond-NAME_MAX')
+            if any('32.40.' in o.split(' ')[2] for o in obs if o.startswith(('ok ', 'chosen ')) and len(o.split(' ')) > 2):
                 res.count('result:numbered')
             if c['kind'] == 'conc':
                 res.count(f"conc:downloads={len(c['downloads'])}")
                 res.count('conc:schedule-ops', len(c['schedule']))
+                ops = [_norm_op(o) for o in c['schedule']]
+                res.count('conc:fault-armed', sum(1 for o in ops if o[2] != '-'))
+                res.count('conc:cut-off', sum(1 for o in ops if o[3]))
+                res.count('conc:started-again', sum(1 for k, o in enumerate(ops) if o[0] == 'spawn'
+                                                   and any(p[0] == 'spawn' and p[1] == o[1] for p in ops[:k])))
             res.violations += vs
             if any(o.startswith('HARNESS-EXC') for o in obs):
                 res.notes.append(f'harness exception: {obs[-1]} on {c}')
